@@ -184,17 +184,25 @@ func c16KF(c vt.Case) string {
 	return ""
 }
 
+var pinCount int
+
 // pinAllThreads pins every thread of the process to one cpu and returns the function that undoes it.
 func pinAllThreads() func() {
 	var old unix.CPUSet
 	if err := unix.SchedGetaffinity(0, &old); err != nil || old.Count() < 2 {
 		return func() {}
 	}
+	// not always the first cpu: other pinned test processes on the machine would all share it
 	var one unix.CPUSet
+	pinCount++
+	want, seen := (os.Getpid()+pinCount*5)%old.Count(), 0
 	for i := 0; i < 1024; i++ {
 		if old.IsSet(i) {
-			one.Set(i)
-			break
+			if seen == want {
+				one.Set(i)
+				break
+			}
+			seen++
 		}
 	}
 	set := func(cs *unix.CPUSet) {
@@ -234,6 +242,9 @@ func TestC16(t *testing.T) {
 	var gmu sync.Mutex
 	gens := map[*indexheader.BinaryReader]int{}
 	ngen := 0
+	var stormSel atomic.Bool // storm scenario: log a selection of the Use / UseEnd pairs only
+	lastGen, nuse, nsusp := 0, 0, 0
+	closedGens, logged := map[int]bool{}, map[int]int{}
 	verifhook.SetSink(func(name string, kv ...any) {
 		if len(kv) < 4 {
 			return
@@ -267,7 +278,37 @@ func TestC16(t *testing.T) {
 			}
 			g = gens[br]
 		}
-		tr.Emit(vt.Event{"ev": ev, "case": curCase.Load(), "gen": g})
+		// Storm scenarios make far too many calls to log every one: all Load / Unload steps are logged,
+		// and of the Use / UseEnd pairs those that a cheap local test finds suspicious (no header, not the
+		// header loaded last, a closed one) plus a 1-in-64 sample (at most 20 suspicious ones per scenario).  The test only selects; TLC judges
+		// every logged step.  UseEnd events are matched to logged Use events per gen (a bag).
+		emit := true
+		if stormSel.Load() {
+			switch ev {
+			case "Load":
+				lastGen = g
+			case "Unload":
+				closedGens[g] = true
+			case "Use":
+				nuse++
+				susp := g == 0 || g != lastGen || closedGens[g]
+				if susp {
+					nsusp++
+				}
+				emit = (susp && nsusp <= 20) || nuse%64 == 0
+				if emit {
+					logged[g]++
+				}
+			case "UseEnd":
+				emit = logged[g] > 0
+				if emit {
+					logged[g]--
+				}
+			}
+		}
+		if emit {
+			tr.Emit(vt.Event{"ev": ev, "case": curCase.Load(), "gen": g})
+		}
 		gmu.Unlock()
 	})
 	defer verifhook.SetSink(nil)
@@ -288,6 +329,9 @@ func TestC16(t *testing.T) {
 		gmu.Lock()
 		gens = map[*indexheader.BinaryReader]int{}
 		ngen = 0
+		lastGen, nuse, nsusp = 0, 0, 0
+		closedGens, logged = map[int]bool{}, map[int]int{}
+		stormSel.Store(vt.Int(c["storm"]) > 0)
 		gmu.Unlock()
 		ctx := context.Background()
 		// lazydl: the pool is configured to download the index-header file lazily: nothing is written
@@ -323,7 +367,9 @@ func TestC16(t *testing.T) {
 			// moment (one of them loads, the others wait for the write lock and find the reader set) while
 			// `closes` goroutines call Close (unconditional unload) in a tight loop.
 			stall := false
-			for round := 0; round < rounds && !stall; round++ {
+			var nbad atomic.Int64 // at most 40 failed calls are logged per storm (each one is judged)
+			t0 := time.Now()
+			for round := 0; round < rounds && !stall && time.Since(t0) < 4*time.Second; round++ {
 				lr.Close()
 				start := make(chan struct{})
 				var stopFlag atomic.Bool
@@ -340,8 +386,11 @@ func TestC16(t *testing.T) {
 							kind, got := c16Call(lr, call, arg)
 							_, ref := c16Call(eager, call, arg)
 							if kind != "ok" {
-								tr.Emit(vt.Event{"ev": "Result", "case": caseID, "call": call, "arg": arg, "kind": kind, "got": []string{}, "ref": ref, "msg": got})
-							} else {
+								if nbad.Add(1) <= 40 {
+									tr.Emit(vt.Event{"ev": "Result", "case": caseID, "call": call, "arg": arg, "kind": kind, "got": []string{}, "ref": ref, "msg": got})
+								}
+							} else if fmt.Sprint(got) != fmt.Sprint(ref) || (p+round+i)%64 == 0 {
+								// answers that differ from the reference are always logged, equal ones 1 in 64
 								tr.Emit(vt.Event{"ev": "Result", "case": caseID, "call": call, "arg": arg, "kind": kind, "got": got, "ref": ref, "msg": []string{}})
 							}
 						}
@@ -354,7 +403,7 @@ func TestC16(t *testing.T) {
 						<-start
 						sp := rand.New(rand.NewSource(int64(round*100 + k)))
 						for !stopFlag.Load() {
-							if k%2 == 1 {
+							if false && k%2 == 1 {
 								// sporadic closer: arrives at random moments, i.e. also while lookups that waited for
 								// a loader pass the write lock one after the other, and barges in between them
 								time.Sleep(time.Duration(50+sp.Intn(450)) * time.Microsecond)
@@ -514,12 +563,12 @@ func TestC16(t *testing.T) {
 	// following RLock of load() -- windows that are otherwise only nanoseconds wide.
 	prevProcs := runtime.GOMAXPROCS(16)
 	defer runtime.GOMAXPROCS(prevProcs)
-	for i, ns := 0, vt.Pick(4, 20); i < ns; i++ {
-		if i == 0 {
-			restore := pinAllThreads() // measured: many readers + pinning give the most hand-offs inside the gap
-			defer restore()
-		}
-		run(vt.Case{"src": "storm", "readers": 8 + rnd.Intn(5), "calls": 8, "idle_us": 1000000, "closes": 6 + rnd.Intn(3),
-			"aliasing": false, "fast": true, "lazydl": false, "dlfail": 0, "slowlog": true, "storm": vt.Pick(8, 12), "sseed": rnd.Int63n(1 << 40)})
+	for i, ns := 0, vt.Pick(8, 24); i < ns; i++ {
+		// measured: many readers and closers + pinning give the most hand-offs inside the gap, and mostly
+		// in the first scenario after the threads were pinned: pin afresh for every storm
+		restore := pinAllThreads()
+		run(vt.Case{"src": "storm", "readers": 10 + rnd.Intn(5), "calls": 100, "idle_us": 1000000, "closes": 12 + rnd.Intn(8),
+			"aliasing": false, "fast": true, "lazydl": false, "dlfail": 0, "slowlog": true, "storm": vt.Pick(6, 12), "sseed": rnd.Int63n(1 << 40)})
+		restore()
 	}
 }
